@@ -24,6 +24,13 @@ def watchdog(seconds):
     def fire():
         sys.stderr.write("INFRA: no verdict after %d s (watchdog)\n" % seconds)
         sys.stderr.flush()
+        try:    # os._exit skips atexit: remove this run's private driver copy by hand
+            import shutil
+            d = getattr(lib, "DRIVER", None)
+            if d is not None and "verif-driver-" in str(d):
+                shutil.rmtree(str(d.parent), ignore_errors=True)
+        except Exception:  # noqa: BLE001
+            pass
         os._exit(2)
     t = threading.Timer(seconds, fire)
     t.daemon = True
